@@ -42,88 +42,74 @@ func extractCall(fn *ssa.Function) *ssa.Call {
 }
 
 func c14Keys(p *Prog, r *Report) {
-	// rate limiter
-	if tl := p.Named("ratelimit", "TokenLimiter"); tl != nil {
-		sv := p.MethodOf(tl, "ServeHTTP")
+	// every keyed access (TTL map Get/Set in the rate limiter, connections[...] in the connection
+	// limiter) reachable from ServeHTTP through static calls, defers and closures must be keyed,
+	// unchanged, by result #0 of the extractor call made for this request
+	type spec struct {
+		pkg, typ, label string
+	}
+	for _, sp := range []spec{{"ratelimit", "TokenLimiter", "TTL map"}, {"connlimit", "ConnLimiter", "per-source counter"}} {
+		t := p.Named(sp.pkg, sp.typ)
+		if t == nil {
+			r.Anchor("C14.R1", sp.pkg+"."+sp.typ, "not found")
+			continue
+		}
+		sv := p.MethodOf(t, "ServeHTTP")
 		ex := extractCall(sv)
 		if ex == nil {
-			r.Anchor("C14.R1", "ratelimit.TokenLimiter.ServeHTTP: extractor call", "not found")
-		} else {
-			r.Fn(FName(sv))
-			n := 0
-			for _, c := range Calls(sv) {
-				call, ok := c.(*ssa.Call)
-				if !ok {
-					continue
-				}
-				f := call.Common().StaticCallee()
-				if f == nil || recvNamed(f) == nil || recvNamed(f).Obj() != tl.Obj() {
-					continue
-				}
-				// which parameter of f keys the TTL map?
-				for _, c2 := range Calls(f) {
-					cc := c2.Common()
-					if !(ccIs(cc, pkgColl, "TTLMap.Get") || ccIs(cc, pkgColl, "TTLMap.Set")) {
+			r.Anchor("C14.R1", sp.pkg+"."+sp.typ+".ServeHTTP: extractor call", "not found")
+			continue
+		}
+		r.Fn(FName(sv))
+		isToken := resultValue(ex, 0)
+		n := 0
+		for _, f := range reachableStatic(p, sv) {
+			rn := recvNamed(enclosingRoot(f))
+			if rn == nil || rn.Obj() != t.Obj() {
+				continue // keyed accesses inside the TTL map itself use its own parameter; followed from the limiter's call
+			}
+			for _, b := range f.Blocks {
+				for _, in := range b.Instrs {
+					var key ssa.Value
+					what := ""
+					switch x := in.(type) {
+					case *ssa.MapUpdate:
+						if _, isMap := x.Map.Type().Underlying().(*types.Map); isMap && valueFromFieldOfType(x.Map, t) {
+							key, what = x.Key, "update"
+						}
+					case *ssa.Lookup:
+						if _, isMap := x.X.Type().Underlying().(*types.Map); isMap && valueFromFieldOfType(x.X, t) {
+							key, what = x.Index, "lookup"
+						}
+					case ssa.CallInstruction:
+						cc := x.Common()
+						if ccIs(cc, pkgColl, "TTLMap.Get") || ccIs(cc, pkgColl, "TTLMap.Set") {
+							key, what = cc.Args[1], objName(calleeObj(cc))
+						}
+						if bi, ok := cc.Value.(*ssa.Builtin); ok && bi.Name() == "delete" && valueFromFieldOfType(cc.Args[0], t) {
+							key, what = cc.Args[1], "delete"
+						}
+					}
+					if key == nil {
 						continue
 					}
 					n++
-					r.Fn(FName(f))
-					pi := paramIndex(f, stripConv(cc.Args[1]))
-					ok := pi > 0 && pi < len(call.Common().Args) && resultValue(ex, 0)(call.Common().Args[pi])
 					r.Sites++
-					r.Check(ok, "C14.R1", fmt.Sprintf("ratelimit.TokenLimiter: key of %s in %s is the extracted source token", objName(calleeObj(cc)), FName(f)), p.InstrPos(c2),
-						"key = parameter bound to result #0 of extract.Extract(req)", "the TTL map is keyed by something other than the unchanged token the extractor returned for this request: distinct sources can share (or one source can split) bucket state")
-				}
-			}
-			r.Floor("C14.R1", n, 2, "TTL map accesses keyed by the source in the rate limiter")
-		}
-	}
-	// connection limiter
-	if cl := p.Named("connlimit", "ConnLimiter"); cl != nil {
-		sv := p.MethodOf(cl, "ServeHTTP")
-		ex := extractCall(sv)
-		if ex == nil {
-			r.Anchor("C14.R1", "connlimit.ConnLimiter.ServeHTTP: extractor call", "not found")
-			return
-		}
-		r.Fn(FName(sv))
-		n := 0
-		for _, c := range Calls(sv) {
-			cc := c.Common()
-			f := cc.StaticCallee()
-			var args []ssa.Value = cc.Args
-			if d, ok := c.(*ssa.Defer); ok {
-				f = deferTarget(d)
-				args = deferArgs(d)
-			}
-			if f == nil || recvNamed(f) == nil || recvNamed(f).Obj() != cl.Obj() || len(args) < 2 {
-				continue
-			}
-			keyed := false
-			for _, b := range f.Blocks {
-				for _, in := range b.Instrs {
-					switch x := in.(type) {
-					case *ssa.MapUpdate:
-						if paramIndex(f, stripConv(x.Key)) == 1 {
-							keyed = true
-						}
-					case *ssa.Lookup:
-						if paramIndex(f, stripConv(x.Index)) == 1 {
-							keyed = true
+					r.Fn(FName(f))
+					origins := resolveUp(p, sv, f, key, 0)
+					ok := len(origins) > 0
+					for _, o := range origins {
+						if !isToken(o) && !sameArg(mustExtract(ex, 0), o) {
+							ok = false
 						}
 					}
+					r.Check(ok, "C14.R1", fmt.Sprintf("%s.%s: key of the %s %s in %s is the extracted source token", sp.pkg, sp.typ, sp.label, what, FName(f)), p.InstrPos(in),
+						"key resolves, through parameters / captured variables, to result #0 of extract.Extract(req), unchanged",
+						"the "+sp.label+" is keyed by something other than the unchanged token the extractor returned for this request (e.g. a truncated or re-derived token): distinct sources can share state, or one source's slot is returned to another")
 				}
 			}
-			if !keyed {
-				continue
-			}
-			n++
-			ok := resultValue(ex, 0)(args[1]) || sameArg(mustExtract(ex, 0), args[1])
-			r.Sites++
-			r.Check(ok, "C14.R1", "connlimit.ConnLimiter: "+FName(f)+" is keyed by the extracted source token", p.InstrPos(c),
-				"the token argument is result #0 of extract.Extract(r), unchanged", "the per-source counter is keyed by a value derived from (not equal to) the extractor's token, e.g. a truncated token: distinct sources sharing a prefix share one counter")
 		}
-		r.Floor("C14.R1", n, 2, "keyed limiter routines called from ConnLimiter.ServeHTTP")
+		r.Floor("C14.R1", n, 2, "keyed accesses of "+sp.pkg+"."+sp.typ)
 	}
 }
 
@@ -231,27 +217,65 @@ func c14Eviction(p *Prog, r *Report) {
 		r.Anchor("C14.R3", "collections.TTLMap / PriorityQueue", "not found")
 		return
 	}
-	free := p.MethodOf(tm, "freeSpace")
-	set := p.MethodOf(tm, "set")
-	if free == nil || set == nil {
-		r.Anchor("C14.R3", "collections.TTLMap.freeSpace / set", "not found")
+	// roles: the insertion routine stores a new element into the elements map; "poppers" are the
+	// methods that take entries off the expiry heap (RemoveExpired: only expired ones; RemoveLastUsed: live ones)
+	var set *ssa.Function
+	for _, m := range p.Methods(tm) {
+		for _, b := range m.Blocks {
+			for _, in := range b.Instrs {
+				if mu, ok := in.(*ssa.MapUpdate); ok && isFieldLoad(mu.Map, tm, "elements") {
+					set = m
+				}
+			}
+		}
+	}
+	remExpF, remLastF := p.MethodOf(tm, "RemoveExpired"), p.MethodOf(tm, "RemoveLastUsed")
+	if set == nil || remExpF == nil || remLastF == nil {
+		r.Anchor("C14.R3", "collections.TTLMap: insertion routine / RemoveExpired / RemoveLastUsed", "not found")
 		return
 	}
-	r.Fn(FName(free))
 	r.Fn(FName(set))
-	// freeSpace callers
+	isPopper := func(f *ssa.Function) bool { return f == remExpF || f == remLastF }
+	evict := NewEvents(p, func(in ssa.Instruction) bool {
+		cc := CallCommonOf(in)
+		return cc != nil && isPopper(cc.StaticCallee())
+	})
+	// live entries are evicted only through the insertion routine
 	cg := p.CallGraph()
-	if node := cg.Nodes[free]; node != nil {
-		for _, e := range node.In {
-			r.Check(e.Caller.Func == set, "C14.R3", "collections.TTLMap: eviction requested from "+FName(e.Caller.Func), p.InstrPos(e.Site), "only the insert routine frees space", "space is freed (a live entry can be evicted) outside the insert routine")
+	var helpers []*ssa.Function
+	for _, pf := range []*ssa.Function{remLastF, remExpF} {
+		if node := cg.Nodes[pf]; node != nil {
+			for _, e := range node.In {
+				caller := e.Caller.Func
+				okc := caller == set
+				if !okc {
+					// a helper (e.g. freeSpace) all of whose callers are the insertion routine
+					okc = true
+					n := 0
+					if cn := cg.Nodes[caller]; cn != nil {
+						for _, e2 := range cn.In {
+							n++
+							if e2.Caller.Func != set {
+								okc = false
+							}
+						}
+					}
+					okc = okc && n > 0
+					if okc {
+						helpers = append(helpers, caller)
+					}
+				}
+				r.Check(okc, "C14.R3", "collections.TTLMap: "+pf.Name()+" requested from "+FName(caller), p.InstrPos(e.Site), "only the insertion routine (or its helper) frees space", "entries are evicted outside the insertion routine")
+			}
 		}
 	}
+	nSites := 0
 	for _, c := range Calls(set) {
 		call, ok := c.(*ssa.Call)
-		if !ok || call.Common().StaticCallee() != free {
+		if !ok || !evict.MayInstr(call) {
 			continue
 		}
-		k, isC := constInt(call.Common().Args[1])
+		nSites++
 		// new-key edge: the comma-ok lookup of elements[key] is false
 		okNew := false
 		for _, t := range BoolTests(set, func(v ssa.Value) bool {
@@ -273,27 +297,46 @@ func c14Eviction(p *Prog, r *Report) {
 				okCap = true
 			}
 		}
-		r.Paths += 2
-		r.Check(okNew, "C14.R3", "collections.TTLMap.set: space is freed only when a NEW key is inserted", p.InstrPos(call), "freeSpace is reachable only on the key-not-present edge", "renewing an existing key can evict another source's live entry (freeSpace is reachable on the key-present path): with sources == capacity every request of one source makes another start afresh")
-		r.Check(okCap, "C14.R3", "collections.TTLMap.set: space is freed only at capacity", p.InstrPos(call), "on the len(elements) >= capacity edge", "entries are evicted although the map is below capacity")
-		r.Check(isC && k == 1, "C14.R3", "collections.TTLMap.set: exactly one entry is evicted", p.InstrPos(call), "freeSpace(1)", "more than one entry is evicted per insertion")
-	}
-	// freeSpace: expired first, then heap pop
-	var remExp, remLast *ssa.Call
-	for _, c := range Calls(free) {
-		if call, ok := c.(*ssa.Call); ok {
-			if f := call.Common().StaticCallee(); f != nil {
-				switch f.Name() {
-				case "RemoveExpired":
-					remExp = call
-				case "RemoveLastUsed":
-					remLast = call
+		// count: exactly one entry overall: the count is the constant 1, or 1 minus what RemoveExpired removed
+		okCount := false
+		callee := call.Common().StaticCallee()
+		countOK := func(e *Expr, one string) bool {
+			s := e.String()
+			if s == one {
+				return true
+			}
+			rf := ToRat(e).norm()
+			return len(rf.P) == 2 && strings.Contains(rf.String(), "RemoveExpired") && strings.Contains(rf.String(), one)
+		}
+		if isPopper(callee) {
+			okCount = countOK(BuildExpr(p, call.Common().Args[1], nil), "1")
+		} else if callee != nil && len(call.Common().Args) == 2 {
+			k, isC := constInt(call.Common().Args[1])
+			okCount = isC && k == 1
+			for _, c2 := range Calls(callee) {
+				if cc := c2.Common(); isPopper(cc.StaticCallee()) {
+					if !countOK(BuildExpr(p, cc.Args[1], nil), "p1") {
+						okCount = false
+					}
 				}
 			}
 		}
+		r.Paths += 2
+		r.Check(okNew, "C14.R3", fmt.Sprintf("collections.TTLMap.%s: space is freed only when a NEW key is inserted (site %d)", set.Name(), nSites), p.InstrPos(call), "eviction is reachable only on the key-not-present edge", "renewing an existing key can evict another source's live entry (eviction is reachable on the key-present path): with sources == capacity every request of one source makes another start afresh")
+		r.Check(okCap, "C14.R3", fmt.Sprintf("collections.TTLMap.%s: space is freed only at capacity (site %d)", set.Name(), nSites), p.InstrPos(call), "on the len(elements) >= capacity edge", "entries are evicted although the map is below capacity")
+		r.Check(okCount, "C14.R3", fmt.Sprintf("collections.TTLMap.%s: exactly one entry is evicted (site %d)", set.Name(), nSites), p.InstrPos(call), "count 1 (expired first, the remainder from the live ones)", "more than one entry is evicted per insertion")
 	}
-	okOrder := remExp != nil && remLast != nil && !ReachableAvoiding(free, nil, remLast, isOnly(remExp), nil)
-	r.Check(okOrder, "C14.R3", "collections.TTLMap.freeSpace: expired entries are dropped before any live one", p.FuncPos(free), "RemoveExpired precedes RemoveLastUsed", "a live entry can be evicted while expired ones remain")
+	r.Floor("C14.R3", nSites, 1, "eviction sites in the insertion routine")
+	// expired entries first: wherever live entries are evicted, RemoveExpired has been passed
+	for _, f := range append([]*ssa.Function{set}, helpers...) {
+		for _, c := range Calls(f) {
+			if c.Common().StaticCallee() != remLastF {
+				continue
+			}
+			isExp := func(in ssa.Instruction) bool { cc := CallCommonOf(in); return cc != nil && cc.StaticCallee() == remExpF }
+			r.Check(!ReachableAvoiding(f, nil, c, isExp, nil), "C14.R3", "collections.TTLMap: expired entries are dropped before any live one, in "+FName(f), p.InstrPos(c), "RemoveExpired precedes RemoveLastUsed", "a live entry can be evicted while expired ones remain")
+		}
+	}
 	// RemoveLastUsed pops the heap; Less is strict on Priority
 	if rl := p.MethodOf(tm, "RemoveLastUsed"); rl != nil {
 		r.Fn(FName(rl))
